@@ -1,4 +1,6 @@
 -- root of the proof library: property theorems (Props) and their helper lemmas
+import Blackbird.Props.C05
+import Blackbird.Props.C06
 import Blackbird.Props.C08
 import Blackbird.Props.C12
 import Blackbird.Props.C13
